@@ -195,6 +195,9 @@ def run(run):
                 q = QG.random_query(rng, kinds=["variable_declaration"], values=proj.values, depth=0, n_entities=1, n_preds=0, where=False)
             if qi % 7 == 3:
                 text = 'FROM block_comment AS c SELECT c, "lit <&> \\"q\\" \\\\ ü"'
+                if qi == 3:
+                    # always: a literal with runes that have no visible form (DEL, ESC, NBSP, a zero-width joiner): verbatim in every mode
+                    text = 'FROM variable_declaration AS v SELECT v.getName(), "np \x7f|\x1b[1m|\u00a0|\u200d|\x01 end", v.getScope()'
                 q = None
             elif qi % 9 == 6:
                 # the same item more than once in the SELECT list: one value per item all the same
